@@ -763,10 +763,20 @@ func (t *tr) items(stmts []ast.Stmt) string {
 
 func main() {
 	if len(os.Args) < 3 {
-		fmt.Fprintln(os.Stderr, "usage: gox <repo> <out.v>")
+		fmt.Fprintln(os.Stderr, "usage: gox <repo> <GoFns.v> [<SrcText.v> [<srctext.json>]]")
 		os.Exit(2)
 	}
 	repo, out := os.Args[1], os.Args[2]
+	if len(os.Args) >= 4 {
+		js := ""
+		if len(os.Args) >= 5 {
+			js = os.Args[4]
+		}
+		if err := emitSrcText(repo, os.Args[3], js); err != nil {
+			fmt.Fprintln(os.Stderr, "gox:", err)
+			os.Exit(1)
+		}
+	}
 	var sb strings.Builder
 	sb.WriteString("(* GENERATED by harness/gox from /repo's Go sources on every run — do not edit.\n   The integer / shape logic of tensor/internal/validator and tensor/internal/cputensor as GoIR programs. *)\n")
 	sb.WriteString("From Coq Require Import String List ZArith.\nFrom Qeep Require Import Model.GoIR.\nImport ListNotations.\nLocal Open Scope string_scope.\nLocal Open Scope Z_scope.\n\n")
